@@ -65,7 +65,7 @@ func (r *ContentReader) Read(b []byte) (got int, err error) {
 }
 
 // readLine reads up to and including the next line break.
-// A line ends with \n, \r\n or a \r that is not followed by \n,
+// A line ends with \n, \r\n, a \r that is not followed by \n, or one of NEL, LS and PS,
 // that's the same set of line breaks that the YAML parser recognises,
 // so line numbers are the same here and there.
 func (r *ContentReader) readLine() (line []byte, err error) {
@@ -76,16 +76,42 @@ func (r *ContentReader) readLine() (line []byte, err error) {
 			return line, err
 		}
 		line = append(line, b)
-		if b == '\n' {
+		switch b {
+		case '\n':
 			return line, nil
-		}
-		if b == '\r' {
+		case '\r':
 			if next, perr := r.src.Peek(1); perr == nil && next[0] == '\n' {
 				continue
 			}
 			return line, nil
+		case 0x85:
+			// NEL (U+0085) encoded as C2 85.
+			if len(line) > 1 && line[len(line)-2] == 0xC2 {
+				return line, nil
+			}
+		case 0xA8, 0xA9:
+			// LS (U+2028) and PS (U+2029) encoded as E2 80 A8 and E2 80 A9.
+			if len(line) > 2 && line[len(line)-3] == 0xE2 && line[len(line)-2] == 0x80 {
+				return line, nil
+			}
 		}
 	}
+}
+
+// lineBreakLen returns the number of bytes used by the line break at the end of the line.
+func lineBreakLen(line []byte) int {
+	n := len(line)
+	switch {
+	case n > 1 && line[n-2] == '\r' && line[n-1] == '\n':
+		return 2
+	case n > 0 && (line[n-1] == '\n' || line[n-1] == '\r'):
+		return 1
+	case n > 1 && line[n-2] == 0xC2 && line[n-1] == 0x85:
+		return 2
+	case n > 2 && line[n-3] == 0xE2 && line[n-2] == 0x80 && (line[n-1] == 0xA8 || line[n-1] == 0xA9):
+		return 3
+	}
+	return 0
 }
 
 func (r *ContentReader) readNextLine() (err error) {
@@ -219,10 +245,8 @@ func hasCommentType(lineComments []comments.Comment, t comments.Type) bool {
 // emptyCurrentLinePrefix blanks everything before the first comment.
 func (r *ContentReader) emptyCurrentLinePrefix(comments []comments.Comment) {
 	for _, c := range comments {
-		for i := 0; i < c.Offset && i < len(r.buf); i++ {
-			if r.buf[i] != '\n' && r.buf[i] != '\r' {
-				r.buf[i] = ' '
-			}
+		for i := 0; i < c.Offset && i < len(r.buf)-lineBreakLen(r.buf); i++ {
+			r.buf[i] = ' '
 		}
 		return
 	}
@@ -234,10 +258,7 @@ func (r *ContentReader) emptyCurrentLine(comments []comments.Comment) {
 		offset = c.Offset
 		break
 	}
-	for i := range r.buf {
-		if r.buf[i] == '\n' || r.buf[i] == '\r' {
-			continue
-		}
+	for i := range r.buf[:len(r.buf)-lineBreakLen(r.buf)] {
 		if i < offset || r.inBegin {
 			r.buf[i] = ' '
 		}
